@@ -15,7 +15,12 @@ def run(mu):
         s = open(p).read()
         if s.count(mu["old"]) != 1:
             return mu, "SITE-NOT-FOUND", ""
-        open(p, "w").write(s.replace(mu["old"], mu["new"]))
+        s = s.replace(mu["old"], mu["new"])
+        for old2, new2 in mu.get("more", ()):
+            if s.count(old2) != 1:
+                return mu, "SITE-NOT-FOUND", ""
+            s = s.replace(old2, new2)
+        open(p, "w").write(s)
         env = {**os.environ, "VERIF_REPO": d, "VERIF_SCRATCH": d + "/out", "VERIF_JOBS": "4", "VERIF_TIER": "quick"}
         r = subprocess.run([os.path.join(HERE, "check"), mu["prop"], "--tier", "quick"], env=env, capture_output=True, text=True)
         lines = [l for l in r.stdout.splitlines() if l.startswith(("VIOLATION", "UNDECIDED", "CHECKER", "HELD"))]
